@@ -49,6 +49,10 @@ pub static N_EBADF_CLOSE: AtomicU64 = AtomicU64::new(0);
 pub static N_SENTINEL_CLOSE: AtomicU64 = AtomicU64::new(0);
 pub static LAST_BAD_CLOSE_FD: AtomicI32 = AtomicI32::new(-1);
 pub static ENOBUFS_INJECTED: AtomicU32 = AtomicU32::new(0);
+/// Times the kernel reported end-of-file on a socket whose queue still held data (see
+/// `eof_race_data_pending`); the wrapper then re-issues the call, as a correct kernel would have
+/// returned that data in the first place.
+pub static N_KERNEL_EOF_RACE: AtomicU64 = AtomicU64::new(0);
 
 /// Sentinel descriptors planted by the harness: bit set for fd numbers < 4096.
 const SENT_WORDS: usize = 64;
@@ -485,10 +489,32 @@ mod full {
         r
     }
 
+    /// Environment anomaly of this sandbox's kernel (reproduced with a 60-line C program, no
+    /// ipc-channel involved): `recv`/`recvmsg` on an AF_UNIX SOCK_SEQPACKET socket can return 0
+    /// (end-of-file) although packets that the peer sent *before* closing are still queued - the
+    /// emptiness check and the shutdown check of the kernel's receive path are not atomic, and a
+    /// receiver preempted between them sees "empty" and then "shut down".  After end-of-file no new
+    /// data can be queued, so data found by an immediate non-blocking peek proves the anomaly.
+    /// The wrapper then simply re-issues the call: the library under test (changed or not) sees
+    /// only what a correct kernel would have answered.
+    unsafe fn eof_race_data_pending(fd: c_int) -> bool {
+        let mut b = 0u8;
+        let r = libc::syscall(libc::SYS_recvfrom, fd, &mut b as *mut u8, 1usize, libc::MSG_PEEK | libc::MSG_DONTWAIT | libc::MSG_TRUNC, 0usize, 0usize) as ssize_t;
+        if r > 0 {
+            N_KERNEL_EOF_RACE.fetch_add(1, SeqCst);
+            true
+        } else {
+            false
+        }
+    }
+
     #[no_mangle]
     pub unsafe extern "C" fn recvmsg(fd: c_int, msg: *mut libc::msghdr, flags: c_int) -> ssize_t {
         let offered = iov_total(msg);
-        let r = libc::syscall(libc::SYS_recvmsg, fd, msg, flags) as ssize_t;
+        let mut r = libc::syscall(libc::SYS_recvmsg, fd, msg, flags) as ssize_t;
+        if r == 0 && offered > 0 && flags & libc::MSG_PEEK == 0 && eof_race_data_pending(fd) {
+            r = libc::syscall(libc::SYS_recvmsg, fd, msg, flags) as ssize_t;
+        }
         if r >= 0 {
             let f = (*msg).msg_flags;
             if f & libc::MSG_TRUNC != 0 {
@@ -507,9 +533,12 @@ mod full {
     pub unsafe extern "C" fn recv(fd: c_int, buf: *mut c_void, len: size_t, flags: c_int) -> ssize_t {
         // MSG_TRUNC in flags makes the kernel return the real packet length, which lets us notice
         // truncation on follow-up fragments without changing what is copied.
-        let r =
+        let mut r =
             libc::syscall(libc::SYS_recvfrom, fd, buf, len, flags | libc::MSG_TRUNC, 0usize, 0usize)
                 as ssize_t;
+        if r == 0 && len > 0 && flags & libc::MSG_PEEK == 0 && eof_race_data_pending(fd) {
+            r = libc::syscall(libc::SYS_recvfrom, fd, buf, len, flags | libc::MSG_TRUNC, 0usize, 0usize) as ssize_t;
+        }
         let r = if r > len as ssize_t {
             N_TRUNC.fetch_add(1, SeqCst);
             len as ssize_t
